@@ -1543,6 +1543,29 @@ pub fn run_history(cfg: &SeqCfg) -> SeqOut {
     let witness = run.witness();
     let focus = cfg.focus;
     let Run { sut, mut findings, mut counts, critical, sig, .. } = run;
+    // a cache whose command worker has died (a recorded finding in some C17 / C13 histories) can still be shut down: shutdown() returns and
+    // every read reports absent afterwards
+    if matches!(focus, "C13" | "C17") && sut.worker_dead() && !findings.iter().any(|f| f.signature.contains("deadlock")) {
+        let cache = sut.cache.clone();
+        let keys = cfg.n_keys;
+        let helper = std::thread::spawn(move || { cache.shutdown(); (1..=keys).filter(|k| cache.get(k).is_some() || cache.get_ref(k).is_some()).count() });
+        match rt::join_helpers("shutdown() of a cache whose worker has died", vec![helper]) {
+            Some(readable) => {
+                counts.inc("shutdowns_of_a_cache_whose_worker_had_died");
+                // its consumer and sweeper now wind down: they must be gone before the next history takes its thread marks (otherwise their
+                // exit would be attributed to the next cache); if they are not seen to go in time, this shard stops here
+                let sweeper_too = sut.sweeper_runs();
+                let gone = rt::poll_until(std::time::Duration::from_secs(5), || { let e = sut.background_exits(); e.contains(&Role::Consumer) && (!sweeper_too || e.contains(&Role::Sweeper)) });
+                if !gone { rt::taint(); }
+                if readable[0] > 0 {
+                    findings.push(Finding { props: vec!["C13"], signature: "C13/api-works-after-shutdown/worker-dead".into(),
+                        detail: format!("shutdown() returned on a cache whose command worker had died, and {} keys are still readable", readable[0]), witness: witness.clone(), inconclusive: false });
+                }
+            }
+            // (after a dead worker the join is a bounded poll, not the logical hang test: no verdict from it)
+            None => findings.push(Finding { props: vec!["C13"], signature: "inconclusive/shutdown-after-worker-death".into(), detail: "shutdown() of a cache whose worker had died was not seen to return in time".into(), witness: J::Null, inconclusive: true }),
+        }
+    }
     if let Err(waited) = sut.finish_or_leak() {
         if findings.is_empty() {
             match waited {
